@@ -24,6 +24,7 @@ type Out struct {
 	V int64   `json:"v"`
 	H int64   `json:"h"`
 	L []int64 `json:"l"`
+	P int64   `json:"p"` // checksum of the whole heap (node identities, Left/Right/Parent pointers, Deleted, iterators)
 }
 type Case struct {
 	Ops  []Op  `json:"ops"`
@@ -34,16 +35,27 @@ const HP = 2147483647
 
 func mod(v int64) int64 { return ((v % HP) + HP) % HP }
 
+// maxDepth bounds the harness's own recursions: a legal AVL tree of the sizes generated here
+// is < 20 deep; anything deeper is a cycle through broken links of a mutated library
+const maxDepth = 4000
+
 func dumpHash(n *ad.AvlNode, parent *ad.AvlNode, pv int64, h int64, bad *int64) int64 {
+	return dumpHashD(n, parent, pv, h, bad, 0)
+}
+func dumpHashD(n *ad.AvlNode, parent *ad.AvlNode, pv int64, h int64, bad *int64, depth int) int64 {
 	if n == nil {
 		return (h*31 + 7) % HP
+	}
+	if depth > maxDepth {
+		*bad++
+		return h
 	}
 	if n.Parent != parent || n.Deleted {
 		*bad++ // stored parent link differs from the structural parent, or tombstone reachable
 	}
 	h1 := (h*1000003 + mod(int64(n.Value))*13 + int64(n.Balance+2)*5 + mod(pv)*3 + 1) % HP
-	hl := dumpHash(n.Left, n, int64(n.Value), h1, bad)
-	return dumpHash(n.Right, n, int64(n.Value), hl, bad)
+	hl := dumpHashD(n.Left, n, int64(n.Value), h1, bad, depth+1)
+	return dumpHashD(n.Right, n, int64(n.Value), hl, bad, depth+1)
 }
 func treeHash(t *ad.AvlTree) int64 {
 	var bad int64
@@ -53,11 +65,12 @@ func treeHash(t *ad.AvlTree) int64 {
 	}
 	return h
 }
-func height(n *ad.AvlNode) int64 {
-	if n == nil {
+func height(n *ad.AvlNode) int64 { return heightD(n, 0) }
+func heightD(n *ad.AvlNode, depth int) int64 {
+	if n == nil || depth > maxDepth {
 		return 0
 	}
-	a, b := height(n.Left), height(n.Right)
+	a, b := heightD(n.Left, depth+1), heightD(n.Right, depth+1)
 	if a > b {
 		return 1 + a
 	}
@@ -67,20 +80,37 @@ func height(n *ad.AvlNode) int64 {
 func execute(ops []Op) []Out {
 	trees := []*ad.AvlTree{ad.NewAvlTree()}
 	var iters []*ad.AvlIterator
+	tk := newTracker()
 	outs := make([]Out, 0, len(ops))
 	for k, o := range ops {
 		r, panicked := safeExecOne(o, &trees, &iters)
+		if !panicked {
+			r.P, panicked = safeWorldHash(tk, trees, iters)
+		}
+		if panicked {
+			r = Out{F: false, V: 0, H: -777, L: []int64{}, P: -777}
+		}
 		outs = append(outs, r)
 		if panicked {
 			// the implementation panicked: its state is garbage from here on; mark this and
 			// every remaining step with an outcome the model never produces (checksum < 0)
 			for j := k + 1; j < len(ops); j++ {
-				outs = append(outs, Out{F: false, V: 0, H: -777, L: []int64{}})
+				outs = append(outs, Out{F: false, V: 0, H: -777, L: []int64{}, P: -777})
 			}
 			break
 		}
 	}
 	return outs
+}
+
+func safeWorldHash(tk *tracker, trees []*ad.AvlTree, iters []*ad.AvlIterator) (h int64, panicked bool) {
+	defer func() {
+		if e := recover(); e != nil {
+			h, panicked = -777, true
+		}
+	}()
+	tk.scan(trees)
+	return tk.worldHash(trees, iters), false
 }
 
 // safeExecOne runs one operation and turns a panic of the implementation into
@@ -174,7 +204,11 @@ func coqCase(c Case) string {
 	for i, o := range c.Outs {
 		outs[i] = fmt.Sprintf("(%s, %s, %s, %s)", B(o.F), Z(o.V), Z(o.H), ZList(o.L))
 	}
-	return "(" + List(ops) + ", " + List(outs) + ")"
+	phs := make([]int64, len(c.Outs))
+	for i, o := range c.Outs {
+		phs[i] = o.P
+	}
+	return "(" + List(ops) + ", " + List(outs) + ", " + ZList(phs) + ")"
 }
 
 // key universes: tiny (collisions), medium (big trees), int64 extremes
@@ -293,7 +327,7 @@ func genCase(r *Rng, w *CaseWriter) (Case, stats) {
 
 func main() {
 	o := ParseFlags()
-	hdr := "From Coq Require Import ZArith List Bool. Import ListNotations.\nFrom ADV Require Import C19.Model C19.Corr.\nOpen Scope Z_scope.\n"
+	hdr := "From Coq Require Import ZArith List Bool. Import ListNotations.\nFrom ADV Require Import C19.Model C19.ModelW C19.Corr.\nOpen Scope Z_scope.\n"
 	if o.Extra == "hunt" {
 		hunt(o)
 		return
@@ -310,15 +344,15 @@ func main() {
 			Die("%v", err)
 		}
 		c := Case{rp.Case.Ops, execute(rp.Case.Ops)}
-		w := NewCaseWriter(o.Out, "replay", hdr, "mism", 1000)
-		w.Type = "case"
+		w := NewCaseWriter(o.Out, "replay", hdr, "pmism", 1000)
+		w.Type = "pcase"
 		w.Add(coqCase(c), c, "replay", true)
 		w.Flush()
 		return
 	}
-	w := NewCaseWriter(o.Out, "cases", hdr, "mism", 50)
-	w.Type = "case"
-	w.Rule = "random histories of Insert/Delete/Find/FindLE/Clone/Iterator/IteratorFrom/iterator Clone/Next over 1-3 trees and up to 7 live iterators; key universes {0..7, 0..47, -100..99, int64 extremes}; a case is non-trivial iff its largest tree held >= 12 keys and at least 3 successful Insert/Delete happened while an iterator was live; distinct = distinct op list"
+	w := NewCaseWriter(o.Out, "cases", hdr, "pmism", 25)
+	w.Type = "pcase"
+	w.Rule = "every step is compared on flag, value, tree checksum, key list AND on the checksum of the whole heap (node identities in allocation order, Left/Right/Parent pointers, Deleted flags, unlinked objects, the node pointer of every iterator); random histories of Insert/Delete/Find/FindLE/Clone/Iterator/IteratorFrom/iterator Clone/Next over 1-3 trees and up to 7 live iterators; key universes {0..7, 0..47, -100..99, int64 extremes}; a case is non-trivial iff its largest tree held >= 12 keys and at least 3 successful Insert/Delete happened while an iterator was live; distinct = distinct op list"
 	// committed corpus first
 	corpus, _ := os.ReadFile(o.Extra)
 	if len(corpus) > 0 {
